@@ -8,6 +8,7 @@ GEN = ["sm3iv", "sm3consts", "sm3code"]
 LEGS = [
     {"driver": "c04", "runner": ("sm3", "Extract/ExtractSM3.v", "Sm3_model")},
     {"driver": "c04w", "runner": ("sm3", "Extract/ExtractSM3.v", "Sm3_model"), "tags": "verif"},
+    {"driver": "c04c", "runner": ("sm3", "Extract/ExtractSM3.v", "Sm3_model")},   # consumers: x509 hash registry
 ]
 
 TECHNIQUE = ("Coq proof that a function-by-function model of sm3/sm3.go (and of crypto/hmac, x/crypto/pbkdf2 as the hash.Hash "
@@ -38,6 +39,7 @@ TRUSTED_BASE = [
     "translator harness/cmd/gen targets sm3iv (IV of Reset -> Gen/SM3IV.v), sm3code (block body of update and update2 and the length bytes of pad translated statement by statement, loops as folds, uint32 arithmetic with explicit wrap -> Gen/SM3Code.v; theorem C04_generated_compression_is_model: generated = hand model = CF) and sm3consts (constants of the parts that stay hand-modelled: block loop 64/64, array sizes, pad's 0x80/0x00/64/56, BlockSize, Size, len(p)*8 -> Gen/SM3Consts.v; theorems C04_constants_from_source, C04_model_uses_source_constants)",
     "extraction: ExtrOcamlBasic only (Extract Inductive bool, option, unit, list, prod, sumbool, sumor; Extract Inlined Constant andb, orb); nat/positive/N stay inductive",
     "OCaml 4.13.1 + dune; runner ocaml/sm3/main.ml and ocaml/conv.ml.tmpl (hex and int conversions, the shared LCG byte stream)",
+    "Go driver harness/cmd/c04c (consumers through the exported x509.SM3.New: several live objects, hmac, pbkdf2)",
     "Go drivers harness/cmd/c04 (public API only) and harness/cmd/c04w (hooks sm3.VerifSetState / VerifGetState / VerifTailOverlaps in /repo/sm3/verif_state_verif.go; gmtls.VerifPrfSM3 / VerifNewMacSM3 in /repo/gmtls/verif_prfsm3_verif.go)",
     "Agree/KeyModel.v and Agree/PrfSM3.v (C06: function-level model of gmtls/prf.go and prf12_sm3_is_P_SM3) for the chain theorem C04_gmtls_prf_via_hash_ops",
     "Python oracle in checks/c04.py: pure-Python SM3 / HMAC / PBKDF2 (self-tested on GM/T 0004 A.1, A.2 at import); hashlib's OpenSSL sm3 only for streams above 256 KiB when present",
@@ -59,6 +61,8 @@ RULE = ("seeded generator (VERIF_SEED): op histories over Write/Sum/Reset of len
         "partitions of messages into 1..8 writes with cuts biased to block boundaries and empty writes; streams 64 KiB..256 KiB (quick) / "
         "up to 64 MiB (thorough, model up to 4 MiB) in chunk sizes 1, 7, 1021, 4099, 65521; HMAC key x message length grid plus random; "
         "PBKDF2 password lengths {0,1,63,64,65,200} x iterations {1,2,1000} x dkLen {1,31,32,33,100} (1000 iterations: two cases in quick); "
+        "consumers (c04c, public API): interleaved histories over 2-3 live objects from x509.SM3.New() / sm3.New() incl. re-creation in a used slot, hmac.New(x509.SM3.New) key x message grid, pbkdf2 over x509.SM3.New; "
+        "gmtls PRF grid label+seed length {0,1,31,32,33,63,64,65,95,96,97,127,128,129,200,300,1000} x output {1,31,32,33,64,65,100,300}; "
         "gmtls (white box, hooks): prf12(sm3.New) for output lengths {0,1,12,31,32,33,48,64,65,128,200, random < 300} and secrets of {0,1,48,64,65,100} bytes; "
         "macSM3/tls10MAC.MAC on one object over 1..5 records with and without extra bytes; "
         "white box: histories written from ONE reused caller buffer with the overlap of the object's tail buffer and that buffer observed after every Write (must be 0), Sum results overwritten by the caller; bit counter set to 0, 2^32-8, 2^32, 2^56, 2^61-64, 2^61, 2^63, 2^64-8.. then writes of {0,1,2,8,55,56,63,64,65,128}. "
@@ -243,7 +247,7 @@ def nontrivial(f):
 def classify(f, io):
     op = f[0]
     out = io[0] if io else "none"
-    if op in ("H", "N", "A"):
+    if op in ("H", "N", "A", "U"):
         n = len(f[-1].split(","))
         return "%s:len%s:%s" % (op, "1-4" if n <= 4 else "5-8" if n <= 8 else "9-24", out)
     if op == "T":
@@ -318,7 +322,8 @@ class _SM3Obj:
 def predicate(f, io):
     """the property, evaluated on what /repo returned, against the Python oracle (independent of the Coq model)"""
     if not io or io[0] in ("PANIC", "HANG"):
-        return False, "implementation " + (io[0] if io else "gave no result")
+        what = {"V": "hmac.New(x509.SM3.New, key): ", "Q": "pbkdf2 over x509.SM3.New: ", "F": "gmtls prf12(sm3.New): "}.get(f[0], "")
+        return False, what + "implementation " + (io[0] if io else "gave no result")
     op = f[0]
     if op == "I":
         return (io == ["ok", "32", "64"]), "Size/BlockSize are not 32/64"
@@ -353,6 +358,43 @@ def predicate(f, io):
         return True, ""
     if op == "H":
         return _check_history(_SM3Obj(), lambda o: o.h.digest(), _ops(f[2]), io)
+    if op == "U":
+        if io[0] != "ok" or len(io) != 2:
+            return False, "multi-object history did not complete: " + " ".join(io)[:80]
+        ops = f[2].split(",")
+        outs = io[1].split(",")
+        if len(ops) != len(outs):
+            return False, "number of results differs from the number of operations"
+        objs = {}
+        for k, (o, got) in enumerate(zip(ops, outs)):
+            p = o.split(":")
+            c, i = p[0][0], int(p[0][1:])
+            if c == "N":
+                objs[i] = PySM3()
+                ok = got == "n"
+            elif c == "W":
+                objs[i].write(_unhex(p[1]))
+                ok = got == "w%d" % len(_unhex(p[1]))
+            elif c == "R":
+                objs[i] = PySM3()
+                ok = got == "r"
+            else:
+                pre = _unhex(p[2])
+                ok = got == "s" + (pre + objs[i].digest()).hex() + "/1"
+                if not ok:
+                    return False, ("op %d: Sum of object %d is not prefix ++ SM3 of what was written to THAT object "
+                                   "(objects from the hash registry must not share state)" % (k, i))
+            if not ok:
+                return False, "op %d: unexpected result %s" % (k, got[:40])
+        return True, ""
+    if op == "V":
+        if io[0] != "ok":
+            return False, "hmac.New(x509.SM3.New, key): " + io[0]
+        return (io[1] == hmac_sm3(_unhex(f[2]), _unhex(f[3])).hex()), "hmac over x509.SM3.New differs from RFC 2104 HMAC-SM3"
+    if op == "Q":
+        if io[0] != "ok":
+            return False, "pbkdf2 over x509.SM3.New: " + io[0]
+        return (_unhex(io[1]) == pbkdf2_sm3(_unhex(f[2]), _unhex(f[3]), int(f[4]), int(f[5]))), "pbkdf2 over x509.SM3.New differs from RFC 8018"
     if op == "A":
         return _check_history(_SM3Obj(), lambda o: o.h.digest(), _ops(f[2]), io, "/0")
     if op == "N":
